@@ -1,7 +1,8 @@
 """C09 — start offsets only translate positions; all entry points agree.
 
-Request lines (self-contained; the attachments are the real code's own top-level results, obtained in a
-pre-pass with the same binary, and are what the Lean model's parameters `parseTop`/`lexTop` evaluate to):
+Request lines (self-contained; the attachments are the real code's own answers of the public `parse_tokens` on the
+lexer's stream and of `lex_starts_at`, obtained in a pre-pass with the same binary: what the Lean model's parameters
+`parseTop`/`lexTop` evaluate to; filter, marker position, not_before clamp and all projections are the model's):
 
   entries <k> <hex src> <full-lexer 0/1> <hex A0> <hex Ak>
   lexes   <k> <hex src> <full-lexer 0/1> <hex A0> <hex Ak>
@@ -37,18 +38,20 @@ THEOREMS = [
     "PV.C09.typed_parsers_cover",
     "PV.C09.generated_parsers_agree",
     "PV.C09.typed_views_of_free_parse",
-    "PV.C09.free_parse_tokens_of_lex",
+    "PV.C09.typed_parse_views_of_free_parse",
     "PV.C09.parseProgram_agrees",
     "PV.C09.parseExpression_eq",
-    "PV.C09.parse_tokens_of_lex_partial",
-    "PV.C09.parse_tokens_of_lex_fails",
-    "PV.C09.parseFiltered_shift_partial",
+    "PV.C09.free_parse_tokens_of_lex",
+    "PV.C09.parse_tokens_of_lex",
+    "PV.C09.parse_tokens_filter_invariant",
+    "PV.C09.parseFiltered_shift",
     "PV.C09.parseTokens_shift_partial",
+    "PV.C09.parseTokens_shift_clamped",
     "PV.C09.entry_shift_partial",
+    "PV.C09.entry_shift_of_first_token",
     "PV.C09.free_shift_partial",
+    "PV.C09.free_shift_of_first_token",
     "PV.C09.entry_shift_fails",
-    "PV.C09.marker_range_breaks_module_range",
-    "PV.C09.marker_range_breaks_eof_offset",
     "PV.C09.mode_names",
 ]
 _LEXSHIFT = os.path.join(core.LEAN, "PV", "C09", "LexShift.lean")     # lexer model builder; imported by PV/C09/Thm.lean
@@ -59,8 +62,12 @@ TRUSTED = [
     "the LALRPOP automaton (parser/src/python.rs) and the lexer are PARAMETERS of the model (Env.parseTop, Env.lexTop): "
     "the theorems hold for every parser/lexer; that the real ones are translation-equivariant (hypothesis ShiftEnv) and "
     "that expression/interactive mode build the module-mode subtree is checked by the differential streams only",
-    "hand-written model lean/PV/C09/Model.lean of parser/src/parser.rs (Parse impls, parse_tokens, parse_filtered_tokens, "
-    "deprecated helpers), tied to the code by the correspondence streams of this run",
+    "hand-written model lean/PV/C09/Model.lean of parser/src/parser.rs as repaired by 9f7255d/e8203b1/582d03b (Parse impls, "
+    "parse_tokens, parse_filtered_tokens with filter + peek + marker, not_before, deprecated helpers), tied to the code by the "
+    "correspondence streams of this run",
+    "the driver's reading of the real parser's answer as the value of Env.parseTop: it is the public parse_tokens on the "
+    "lexer's stream, accepted only if the model hands over the marker at the position that answer shows (Mod* range start "
+    "with all-nodes-with-ranges; Eof offset of an empty stream) and no comment token (lean/Drv/C09.lean envOf)",
     "tools/c09_translate.py (strict scanner of parser/src/gen/parse.rs and of the Stmt/Expr enums of ast/src/gen/generic.rs); "
     "cross-checked on every run: the harness dispatches to the same 55 types in the same order, and the driver's answers "
     "interpreted from the table are diffed against the real generated parsers",
@@ -68,13 +75,20 @@ TRUSTED = [
     "tools/props/c09.py (generators, independent Python oracle), harness/src/bin/pvh_c09.rs, lean/Drv/C09.lean",
 ]
 PARTIAL = [
-    "entry_shift_full is FALSE of the code (entry_shift_fails): Stmt::parse* of a text without statements reports Eof at "
-    "offset 0 instead of k; proved instead: entry_shift_partial under StmtNonEmpty and MarkerIrrelevant",
-    "MarkerIrrelevant (the start marker's Default::default() range is unobservable) does not hold of the real parser for "
-    "token-less texts in expression mode (Eof reported at 0) nor with all-nodes-with-ranges (Mod range starts at 0): "
-    "marker_range_breaks_eof_offset / marker_range_breaks_module_range are the model witnesses; listed as known findings",
-    "parse_tokens_of_lex_full is FALSE with full-lexer (parse_tokens_of_lex_fails): Parse::parse_tokens does not filter "
-    "Comment/NonLogicalNewline; proved instead: parse_tokens_of_lex_partial (no full-lexer, or no trivia in the stream)",
+    "entry_shift_full (no hypothesis on the marker) is still FALSE (entry_shift_fails): a text without tokens gives the start "
+    "marker nothing to follow, it sits at 0..0, and a parser that puts the marker's range into the Mod node returns range 0..0 at "
+    "every start offset — the real one does so with all-nodes-with-ranges (listed finding start-marker-mod-range-no-token). "
+    "Proved instead: entry_shift_partial / free_shift_partial for EVERY text (no StmtNonEmpty any more) under "
+    "`Headless stream -> HeadlessMarkerIrrelevant` (asked only when the text has no positioned first token: the marker's position "
+    "changes at most an error offset below k), and entry_shift_of_first_token / free_shift_of_first_token with no marker "
+    "hypothesis at all when the text has a token",
+    "parse_tokens is not told the start offset: parseTokens_shift_partial (T::parse_tokens on a translated stream, without the clamp) "
+    "needs a positioned first token and, for the parsers that go through Stmt, at least one statement (StmtNonEmpty: the "
+    "zero-statement Eof sits at TextSize::default()); parse_tokens_of_lex / free_parse_tokens_of_lex give equality with "
+    "parse_starts_at up to not_before, exact at offset 0 or when the error offset is not below k. The oracle accepts both the "
+    "shifted and the unshifted answer of parse_tokens on token-less texts for the same reason",
+    "typed_views_of_free_parse needs StartsNotBefore (the node InvalidToken is reported at starts at or after k — true of any "
+    "lexer that counts from k) because both sides are clamped; unconditional at offset 0 (typed_parse_views_of_free_parse)",
     "lexer-level translation is PV.C09.lex_shift (lean/PV/C09/LexShift.lean, on the lexer MODEL of PV/Lexer, whose tie to lexer.rs "
     "is the C05 correspondence): lex k src = shift k (lex 0 src) provided the end offset fits u32; in the entry-point model it "
     "is the hypothesis ShiftEnv.lex (the two models are not yet composed into one term), and the real lexer is checked "
@@ -88,14 +102,17 @@ PARTIAL = [
 READY = True
 TECHNIQUE = ("Lean 4 theorems over a model of the entry points that is parametric in the parser and lexer + translator of the "
              "generated parsers (decide on the regenerated table) + differential correspondence on every public entry point")
-LEVEL_TEXT = ("Machine-checked Lean 4 theorems, for every parser and lexer plugged into the model of parser.rs: each Parse "
-              "implementation (8 hand-written, 55 generated, the latter read from gen/parse.rs by a translator and re-checked by "
-              "`decide` on every run) returns the documented projection of the tree the one parser builds for the same tokens, "
-              "and commutes with translation by a start offset on an explicit domain; the three places where the code does not "
-              "translate (empty Stmt, start-marker range twice) and the unfiltered trait parse_tokens under full-lexer are proved "
-              "as counterexamples and listed as known findings. The model is tied to the code by running all ~520 entry-point "
-              "calls per text and offset through both, and the real code is judged directly by an independent Python oracle "
-              "(shift relation, cross-mode and projection relations) in the default, all-nodes-with-ranges and full-lexer builds.")
+LEVEL_TEXT = ("Machine-checked Lean 4 theorems, for every parser and lexer plugged into the model of parser.rs (as repaired by "
+              "9f7255d, e8203b1, 582d03b): each Parse implementation (8 hand-written, 55 generated, the latter read from "
+              "gen/parse.rs by a translator and re-checked by `decide` on every run) returns the documented projection of the tree "
+              "the one parser builds for the same tokens in every build configuration (comment tokens included); parse_starts_at is "
+              "parse_tokens of the lexer's stream up to the not_before clamp; and every parse_starts_at commutes with translation by "
+              "a start offset for every text — with no assumption on the start marker when the text has a token, and under an "
+              "explicit marker hypothesis for token-less texts, whose failure with all-nodes-with-ranges (Mod range 0..0) is proved "
+              "as a counterexample and listed as the one remaining known finding. The model is tied to the code by running all ~520 "
+              "entry-point calls per text and offset through both, and the real code is judged directly by an independent Python "
+              "oracle (shift relation, cross-mode and projection relations) in the default, all-nodes-with-ranges and full-lexer "
+              "builds.")
 LEVEL_NOTE = ("Trusted: Lean kernel, the translator and {:?} readers, the harness. Not proved: translation-equivariance of the "
               "real lexer (PV.C09.lex_shift proves it of the lexer model) and of the LALRPOP parser, f-string offset threading, cross-mode grammar "
               "facts — these are differential streams judged by the oracle.")
@@ -410,8 +427,6 @@ def analyse(req, out):
     for name, text in cross:
         fails.append((None, text))
     blank = _is_blank(src)
-    pm0 = b0.get("parse.m", "")
-    empty_module = bool(re.match(r"\(ok Module\(ModModule \{ range: [^,]*, body: \[\], ", pm0))
     for name, want in exp.items():
         got = b0.get(name)
         if got is None:
@@ -420,11 +435,7 @@ def analyse(req, out):
             if not got.startswith("(err "):
                 fails.append((None, "%s: no single statement, yet %s" % (name, got[:80])))
         elif got != want:
-            tag = None
-            if full and name.endswith(".parse_tokens") and re.match(
-                    r"\(err UnrecognizedToken\((Comment\(|NonLogicalNewline,)", got):
-                tag = "full-lexer-trait-parse-tokens-unfiltered"
-            fails.append((tag, "%s = %s, but the tree of parse(..) gives %s" % (name, got[:100], str(want)[:100])))
+            fails.append((None, "%s = %s, but the tree of parse(..) gives %s" % (name, got[:100], str(want)[:100])))
     if k:
         bk = blocks[k]
         for name, got in bk.items():
@@ -440,37 +451,19 @@ def analyse(req, out):
                 # tell the offsets apart: "equals parsing the text" and "moved by k" cannot both be asked here
                 continue
             tag = None
-            ty = name.split(".")[0]
-            if (ty == "Stmt" or ty.startswith("Stmt")) and empty_module and got == "(err Eof 0)" and base == "(err Eof 0)":
-                tag = "stmt-empty-offset-zero"
-            elif blank and got == "(err Eof 0)" and base == "(err Eof 0)" and (
-                    ty in ("ModExpression", "Expr", "Identifier", "Constant", "parse_expression_starts_at")
-                    or ty.startswith("Expr") or name in ("parse_starts_at.e", "parse_tokens.e")):
-                tag = "no-token-eof-offset-zero"
-            elif _only_mod_range_start(got, want, base):
-                tag = "start-marker-mod-range"
-            elif full and name.endswith(".parse_tokens") and "." in name and re.match(
-                    r"\(err UnrecognizedToken\((Comment\(|NonLogicalNewline,)", got):
-                # already counted at offset 0 (the unshifted comparison partner is itself wrong)
-                tag = "full-lexer-trait-parse-tokens-unfiltered"
+            if blank and got == base and _TOKENLESS_MOD.match(got) and (
+                    name in ("parse_starts_at.m", "parse_starts_at.i", "ModModule.parse_starts_at",
+                             "ModInteractive.parse_starts_at")):
+                # the one place left: a token-less text gives the marker nothing to follow, the Mod node (only with
+                # all-nodes-with-ranges) takes the marker's 0..0 and not_before repairs errors only
+                tag = "start-marker-mod-range-no-token"
             fails.append((tag, "%s at offset %d = %s, offset-0 result moved by %d = %s" % (
                 name, k, got[:100], k, want[:100])))
     return fails
 
 
-_MODRANGE = re.compile(r"^\(ok (?:Module\(ModModule|Interactive\(ModInteractive|Expression\(ModExpression|"
-                       r"ModModule|ModInteractive|ModExpression) \{ range: (\d+)\.\.(\d+), ")
-
-
-def _only_mod_range_start(got, want, base):
-    """all-nodes-with-ranges: the only difference is that the Mod node's range starts where it started at
-    offset 0 (the start marker's 0) instead of being moved"""
-    mg, mw, mb = _MODRANGE.match(got), _MODRANGE.match(want), _MODRANGE.match(base)
-    if not (mg and mw and mb):
-        return False
-    if mg.group(2) != mw.group(2) or mg.group(1) != mb.group(1):
-        return False
-    return got[mg.end(1):] == want[mw.end(1):] and got[:mg.start(1)] == want[:mw.start(1)]
+_TOKENLESS_MOD = re.compile(r"^\(ok (?:Module\(ModModule|Interactive\(ModInteractive|ModModule|ModInteractive) "
+                            r"\{ range: 0\.\.0, body: \[\][,} ]")
 
 
 def _first_diff(a, b):
@@ -513,11 +506,7 @@ def classify(req, impl_out, model_out, failure):
         return None
     fails = analyse(req, impl_out)
     if fails and all(t for t, _ in fails):
-        tags = [t for t, _ in fails]
-        # a blank text shows two listed findings at once; the empty text is the probe of the Stmt one
-        if req.split()[2] == "-" and "stmt-empty-offset-zero" in tags:
-            return "stmt-empty-offset-zero"
-        return tags[0]
+        return fails[0][0]
     return None
 
 
@@ -610,6 +599,10 @@ CORPUS = [
 ]
 
 
+# inputs of the findings repaired by 9f7255d / e8203b1 / 582d03b (see known_findings.d/C09.json "fixed")
+REPAIRED_PROBES = ["", "# c\n", "x\n", "# c\nx", "\n\n# c\n  \nx = 1\n", "# c\n# d\n(\n# e\n1)\n", "\n$", "# c\n'abc"]
+
+
 def _variant_reqs_sources():
     out = list(VARIANT_SOURCES)
     out += [s + "\n" for s in VARIANT_SOURCES[:10]]
@@ -694,13 +687,10 @@ def _build_requests(features, items):
     for s, k in items:
         a0, ak = _split_fields(top[(s, 0)]), _split_fields(top[(s, k)])
 
-        def tree_part(a):
-            return hexs("\t".join("%s=%s" % (f, a.get(f, "(missing)")) for f in ("m", "e", "i", "rm", "re", "ri")))
-
-        def lex_part(a):
-            return hexs("\t".join("%s=%s" % (f, a.get(f, "(missing)")) for f in ("lex.m", "lex.e", "lex.i")))
-        ents.append("entries %d %s %s %s %s" % (k, hexs(s), full, tree_part(a0), tree_part(ak)))
-        lexs.append("lexes %d %s %s %s %s" % (k, hexs(s), full, lex_part(a0), lex_part(ak)))
+        def part(a):
+            return hexs("\t".join("%s=%s" % (f, a.get(f, "(missing)")) for f in ("m", "e", "i", "lex.m", "lex.e", "lex.i")))
+        ents.append("entries %d %s %s %s %s" % (k, hexs(s), full, part(a0), part(ak)))
+        lexs.append("lexes %d %s %s %s %s" % (k, hexs(s), full, part(a0), part(ak)))
     return ents, lexs
 
 
@@ -721,23 +711,23 @@ def streams(ctx):
                     items.append((s, k))
         return items
 
-    # 0. listed findings, one deterministic probe each (default build)
-    e, _ = _build_requests("default", [("", 100), ("# c\n", 100)])
-    out.append(Stream("known-finding-probes", e, kind="directed",
-                      note="Stmt::parse_starts_at(\"\", _, 100) and expression mode on a token-less text at offset 100"))
+    # 0. the inputs of the four repaired findings (9f7255d, e8203b1, 582d03b), as ordinary requests judged by the
+    #    oracle: if a defect returns it is a VIOLATION with this input
+    e, _ = _build_requests("default", [(s, k) for s in REPAIRED_PROBES for k in (100, 2 ** 31)])
+    out.append(Stream("repaired-finding-inputs", e, kind="directed",
+                      note="Stmt::parse_starts_at(\"\", _, 100), expression mode on token-less texts at offset 100, "
+                           "texts with leading blank/comment lines"))
 
     out.append(Stream("mode-names", ["modes " + " ".join(hexs(c) for c in MODE_CANDIDATES)], kind="directed",
                       compare=False, note="Mode::from_str on the candidate names, judged against CPython's mode names"))
 
-    # 1. corpus x all offsets x all entry points
-    items = with_offsets([s for s in CORPUS if not _is_blank(s.encode())])
+    # 1. corpus x all offsets x all entry points (blank texts included since the offset repairs)
+    items = with_offsets(CORPUS)
     e, l = _build_requests("default", items)
     out.append(Stream("corpus-entries", e, kind="corpus", nontrivial=_nontrivial,
-                      note="suspected-problem texts (valid and invalid) x offsets {0,1,400,2^31,2^32-1-len}"))
-    items = with_offsets(CORPUS)
-    _, l = _build_requests("default", items)
+                      note="suspected-problem texts (valid, invalid, blank) x offsets {0,1,400,2^31,2^32-1-len}"))
     out.append(Stream("corpus-lexes", l, kind="corpus", nontrivial=_nontrivial,
-                      note="every lexing entry point; blank texts included (token streams translate there)"))
+                      note="every lexing entry point"))
 
     # 2. one text per Stmt/Expr variant: every generated parser has a text it accepts
     items = with_offsets(_variant_reqs_sources(), ks=None if not quick else [0, 400, 2 ** 31])
@@ -747,10 +737,14 @@ def streams(ctx):
                            "parsers is exercised on its own variant and on the 54 others"))
     out.append(Stream("each-variant-lexes", l, kind="exhaustive", exhaustive=True, nontrivial=_nontrivial))
 
-    # 3. random mostly-valid programs
+    # 3. random mostly-valid programs, some behind leading blank / comment lines (the marker must skip them)
     rng = ctx.rng("random-valid")
     n = 120 if quick else 2500
-    srcs = [s for s in _gen_random(rng, n) if not _is_blank(s.encode())]
+    srcs = []
+    for i, t in enumerate(_gen_random(rng, n)):
+        if i % 5 == 0:
+            t = rng.choice(["\n", "# c\n", "\n\n  # c\n", "\\\n", "\ufeff", "\x0c\n"]) + t
+        srcs.append(t)
     items = [(s, rng.choice(_offsets(s.encode())[1:])) for s in srcs]
     e, l = _build_requests("default", items)
     out.append(Stream("random-valid-entries", e, kind="random", nontrivial=_nontrivial))
@@ -767,33 +761,34 @@ def streams(ctx):
             m.encode("utf-8")
         except UnicodeEncodeError:
             continue
-        if not _is_blank(m.encode()):
-            bad.append(m)
+        bad.append(m)
     items = [(s, rng.choice(_offsets(s.encode())[1:])) for s in bad]
     e, l = _build_requests("default", items)
     out.append(Stream("malformed-entries", e, kind="malformed", nontrivial=_nontrivial))
     out.append(Stream("malformed-lexes", l, kind="malformed", nontrivial=_nontrivial))
 
     # 5. the other configurations (quantifier: configurations)
-    sub = [s for s in CORPUS if not _is_blank(s.encode())][:: (3 if quick else 1)] + VARIANT_SOURCES[:: (4 if quick else 1)]
+    sub = CORPUS[:: (3 if quick else 1)] + VARIANT_SOURCES[:: (4 if quick else 1)] + REPAIRED_PROBES
     for fs in ("all-ranges", "full-lexer"):
         h = {"bin": "pvh_c09", "features": fs}
-        e, _ = _build_requests(fs, [("x\n", 100)] if fs == "all-ranges" else [("# c\nx", 100)])
-        out.append(Stream("known-finding-probe-" + fs, e, kind="directed", harness=h))
-        # offset 0 only: the shape of the listed finding (every Mod range / every commented text) stays out
+        if fs == "all-ranges":
+            # the listed finding that is left: Mod range of a token-less text (one deterministic probe)
+            e, _ = _build_requests(fs, [("", 100)])
+            out.append(Stream("known-finding-probe-" + fs, e, kind="directed", harness=h,
+                              note="parse_starts_at(\"\", Mode::Module, _, 100): Module range 0..0"))
         e, l = _build_requests(fs, [(s, 0) for s in sub])
         out.append(Stream("entries-offset0-" + fs, e, kind="corpus", harness=h, nontrivial=_nontrivial,
                           note="entry-point agreement in this build (offset 0)"))
-        items = [(s, k) for s in sub for k in (400, U32 - 1 - len(s.encode()))]
-        if fs == "full-lexer":
-            items = [(s, k) for s, k in items if "#" not in s and "\n\n" not in s and not s.startswith("\n")]
+        ks = (100, 400, None)
+        items = [(s, k if k is not None else U32 - 1 - len(s.encode())) for s in sub for k in ks]
+        if fs == "all-ranges":
+            # token-less texts at k != 0 hit the listed finding (probed above); everything else is judged
+            items = [(s, k) for s, k in items if not _is_blank(s.encode())]
         e, l = _build_requests(fs, items)
-        if fs == "full-lexer":
-            out.append(Stream("entries-shift-" + fs, e, kind="corpus", harness=h, nontrivial=_nontrivial,
-                              note="texts without comment/blank-line tokens (those hit the listed finding)"))
-        else:
-            out.append(Stream("entries-shift-" + fs, e, kind="corpus", harness=h, nontrivial=_nontrivial,
-                              note="every Mod* range here hits the listed start-marker finding; anything else is reported"))
+        out.append(Stream("entries-shift-" + fs, e, kind="corpus", harness=h, nontrivial=_nontrivial,
+                          note=("every Mod* range must move with the offset (start marker at the first token)"
+                                if fs == "all-ranges" else
+                                "comment / blank-line tokens reach every parse_tokens entry point and are skipped there")))
         out.append(Stream("lexes-shift-" + fs, l, kind="corpus", harness=h, nontrivial=_nontrivial))
     return out
 
